@@ -274,7 +274,8 @@ Definition run (cfg : word) (ops : list word) : option (list word) :=
                resource (name, c) of the response (last entry of that name), or on a new
                watch when another watcher of the resource holds c - and then it comes first;
                NACK errors only for an invalid entry; 'does not exist' only for a resource
-               missing from a SotW response (never with ignore_resource_deletion) or on expiry;
+               missing from a SotW response (never with ignore_resource_deletion) or on expiry of the
+               timer of a watcher that holds no valid resource;
                no callback on cancel, on ops that were not applied, or for other watchers
      clause 5  every request lists exactly the names that have a watcher
      clause 6  a failed stream (before any response on it) gives every watcher exactly one
@@ -399,7 +400,8 @@ Definition justified (ign : bool) (m : monB) (a : aop) (applied : bool) (w : Z) 
     if (b_wm m w =? -1) || b_msg m then negb (nonempty (map fst cbs))
     else match cbs with [(kd, e)] => ((kd =? 2) || (kd =? 3)) && (e =? 1) | _ => false end
   | AExpire =>
-    if b_wm m w =? -1 then negb (nonempty (map fst cbs))
+    (* a watcher that holds a valid resource has no running expiry timer: nothing may be reported *)
+    if (b_wm m w =? -1) || negb (b_val m w =? -1) then negb (nonempty (map fst cbs))
     else match cbs with [] => true | [(kd, e)] => (kd =? 2) && (e =? 2) | _ => false end
   | _ => negb (nonempty (map fst cbs))
   end.
